@@ -483,7 +483,7 @@ fn local_to_json(l: &Local, cn: &Cn) -> Value {
     })
 }
 
-fn json_to_local(v: &Value, cn: &mut Cn) -> Local {
+fn json_to_local(v: &Value, cn: &mut Cn, seen_keys: &mut BTreeSet<String>) -> Local {
     let mut l = Local::new();
     l.evals = v["evals"].as_u64().unwrap_or(0);
     if let Some(m) = v["classes"].as_object() {
@@ -498,7 +498,12 @@ fn json_to_local(v: &Value, cn: &mut Cn) -> Local {
     }
     if let Some(a) = v["violations"].as_array() {
         for x in a {
-            l.violation(x["key"].as_str().unwrap_or(""), x["what"].as_str().unwrap_or(""), x["case"].clone());
+            // one recorded instance per key over all children (the per-key totals are in the classes), so that
+            // neither the violation list nor known-finding hit counts depend on the number of child processes
+            let key = x["key"].as_str().unwrap_or("").to_string();
+            if seen_keys.insert(key.clone()) {
+                l.violation(key, x["what"].as_str().unwrap_or(""), x["case"].clone());
+            }
         }
     }
     if let Some(a) = v["samples"].as_array() {
@@ -665,6 +670,7 @@ pub fn run(ctx: Ctx) -> ! {
             .collect();
         hs.into_iter().map(|h| h.join().unwrap_or_else(|_| mc_core::machinery_error("supervisor thread panicked"))).collect()
     });
+    let mut seen_keys: BTreeSet<String> = BTreeSet::new();
     for (skip, res, complete) in results {
         for i in skip {
             killed += 1;
@@ -675,7 +681,7 @@ pub fn run(ctx: Ctx) -> ! {
             ctx.class("process killed", 1);
         }
         match res {
-            Some(v) => ctx.merge(json_to_local(&v, &mut cn)),
+            Some(v) => ctx.merge(json_to_local(&v, &mut cn, &mut seen_keys)),
             None => exhaustive = false,
         }
         if !complete {
